@@ -212,4 +212,37 @@ theorem batchInversion_zero (xs : List Nat) (h : BF.zero ∈ xs) : BF.batchInver
   | nil => simp at h
   | cons x xs => unfold BF.batchInversion; simp [key _ _ h]
 
+/-! ### integer conversions -/
+
+theorem fromU128_spec (x : Nat) (hx : x < W * W) : canon (BF.fromU128 x) ∧ bfe_value (BF.fromU128 x) = x % Pn := by
+  have h := mod_reduce_spec x hx
+  have hn := new_spec (mod_reduce x) h.1
+  unfold BF.fromU128
+  exact ⟨hn.1, by rw [hn.2]; exact h.2⟩
+
+/-- `From<i64>`: every `i64` is mapped to its residue (sign handled through the 2^128 wrap-around of `as u128`) -/
+theorem fromI64_spec (v : Int) (h1 : -(2:Int)^63 ≤ v) (h2 : v < (2:Int)^63) :
+    canon (BF.fromI64 v) ∧ ((bfe_value (BF.fromI64 v) : Nat) : Int) = v % (18446744069414584321 : Int) := by
+  unfold BF.fromI64
+  by_cases hv : v ≥ 0
+  · simp only [hv, if_true]
+    have hx : v.toNat < W * W := by unfold W; omega
+    obtain ⟨hc, hval⟩ := fromU128_spec v.toNat hx
+    refine ⟨hc, ?_⟩
+    rw [hval]; unfold Pn; omega
+  · simp only [hv, if_false]
+    have hx : (2 ^ 128 - (-v).toNat - R2) < W * W := by unfold W R2; omega
+    obtain ⟨hc, hval⟩ := fromU128_spec _ hx
+    refine ⟨hc, ?_⟩
+    rw [hval]; unfold Pn R2; omega
+
+theorem toI64_spec (a : Nat) (ha : canon a) :
+    -(2:Int)^63 ≤ BF.toI64 a ∧ BF.toI64 a < (2:Int)^63 ∧ (BF.toI64 a) % (18446744069414584321 : Int) = (bfe_value a : Int) := by
+  have hv := value_lt a (Nat.lt_trans ha Pn_lt_W)
+  unfold BF.toI64 Pn at *
+  simp only
+  split
+  · omega
+  · unfold P; omega
+
 end TF.BF
